@@ -84,6 +84,8 @@ class PairLower:
                 s = self.side(obj[1])
                 if s:
                     return s, e[2]
+            if obj[0] == 'id' and obj[1] in getattr(self, 'set_alias', {}):      # const auto& cov = ( *x)->covariant_classes;
+                return self.set_alias[obj[1]], e[2]
         return None
 
     def e(self, x):
@@ -105,6 +107,14 @@ class PairLower:
             sl, sr = self.side(l), self.side(r)
             if sl and sr:
                 return '(%s %s %s)' % ('OEq' if x[1] == '==' else 'ONe', sl, sr)
+            # set.count(y) !=/== 0   (either order)
+            for f, z in ((l, r), (r, l)):
+                cc = self.cov_call(f, 'count', 1)
+                if cc and z == ('num', 0):
+                    y = self.side(cc[1][0])
+                    if not y:
+                        self.bad('argument of count', x)
+                    return '(%s %s %s)' % ('OHas' if x[1] == '!=' else 'OHasNot', cc[0], y)
             # set.find(y) ==/!= set.end()   (either order)
             for f, en in ((l, r), (r, l)):
                 fc = self.cov_call(f, 'find', 1)
@@ -145,6 +155,12 @@ class PairLower:
             return 'OContinue'
         if k == 'expr' and st[1][0] == 'assign' and st[1][1] == '=' and st[1][2] == ('id', 'result'):
             return '(OSet %s)' % self.e(st[1][3])
+        if (k == 'decl' and st[1] in ('const auto &', 'auto &') and len(st[2]) == 1 and st[2][0][1] is not None and st[2][0][1][0] == 'member'
+                and st[2][0][1][2] == 'covariant_classes' and st[2][0][1][3] and self.side(st[2][0][1][1])):
+            if not hasattr(self, 'set_alias'):
+                self.set_alias = {}
+            self.set_alias[st[2][0][0]] = self.side(st[2][0][1][1])
+            return 'OSkip'
         if k == 'decl' and st[1] in ('auto', 'const auto'):
             # auto a_class = a->vp[i], b_class = b->vp[i];   names for the two classes compared
             for name, init in st[2]:
@@ -233,7 +249,8 @@ def best_function(src):
     cond = inner[2]
     cb = ('call', ('member', ('id', 'candidates'), 'begin', False), [])
     ce = ('call', ('member', ('id', 'candidates'), 'end', False), [])
-    if not (cond[0] == 'call' and cond[1] == ('id', 'std::all_of') and len(cond[2]) == 3 and cond[2][0] == cb and cond[2][1] == ce
+    none_of = cond[0] == 'call' and cond[1] == ('id', 'std::none_of')          # none_of(p) is all_of(!p)
+    if not (cond[0] == 'call' and cond[1] in (('id', 'std::all_of'), ('id', 'std::none_of')) and len(cond[2]) == 3 and cond[2][0] == cb and cond[2][1] == ce
             and cond[2][2][0] == 'lambda'):
         raise mc.Unsupported('best: condition is no longer std::all_of(candidates.begin(), candidates.end(), <lambda>): ' + mc.show(cond))
     lam = cond[2][2]
@@ -264,7 +281,7 @@ def best_function(src):
             return '(%s %s %s)' % ('BMoreSpecific' if e[1][1] == 'is_more_specific' else 'BIsBase', who(e[2][0]), who(e[2][1]))
         raise mc.Unsupported('best: predicate not in the subset: ' + mc.show(e))
 
-    return pred(lb[0][1])
+    return '(BNot %s)' % pred(lb[0][1]) if none_of else pred(lb[0][1])
 
 
 def main():
